@@ -452,7 +452,7 @@ _mk("cmds", cmd_log_projection, runner_features(0, 4, need=["cmd"]))
 _mk("visits", runner_projection(flow_view), runner_features(0, 5, need=["jump"]))
 
 PROPERTIES["C03"] = {
-    "families": [("vars", 220, 5000)],
+    "families": [("vars", 300, 6000)],
     "rule": "dialogues dominated by set/declare with all six operators over every pair of (stored type, assigned type), "
             "first assignments and compound assignments to unknown names, host writes of any type between steps, on a "
             "recording host Storer; compared: every Set*/Clear call the storer received, GetValues() at random points, "
@@ -460,7 +460,7 @@ PROPERTIES["C03"] = {
     "assumptions": [],
 }
 PROPERTIES["C06"] = {
-    "families": [("faults", 240, 6000)],
+    "families": [("faults", 400, 8000)],
     "rule": "valid scripts seeded with every fault class (ill-typed operands, unknown variables/functions/nodes/commands, "
             "null, value-less functions, failing functions, dice/random_range/round_places out of domain incl. 0, "
             "negatives, 1e30, NaN) at random depths; only the outcome class of each Next is compared (element/end/"
@@ -469,7 +469,7 @@ PROPERTIES["C06"] = {
     "assumptions": ["choices are in range whenever an option group is waiting (adaptive generation)"],
 }
 PROPERTIES["C07"] = {
-    "families": [("snap", 160, 4000)],
+    "families": [("snap", 300, 6000)],
     "rule": "two runners of one script; random interleaving of Next, host writes, Snapshot into slots, re-reading OLD "
             "snapshot objects after further steps (exposes shared maps), RestoreAt of any slot into either runner in "
             "whatever state it is (mid-node, waiting for a choice, waiting for a command, ended), GetValues; compared: "
@@ -485,7 +485,7 @@ PROPERTIES["C10"] = {
     "assumptions": ["the harness fills a handler's channel exactly between two Next calls (the schedule is imposed, not raced)"],
 }
 PROPERTIES["C11"] = {
-    "families": [("visits", 200, 5000)],
+    "families": [("visits", 260, 5000)],
     "rule": "jump-heavy graphs of 1-5 nodes (self-loops, cycles, jumps out of nested bodies, jumps by expression, unknown "
             "targets, duplicate titles) with random tracking: never/always headers; every line renders "
             "visited_count/visited for every node and a non-node; snapshots are taken, read and restored along the way. "
@@ -677,7 +677,7 @@ def random_oracle(case, obs, exp):
 
 _mk("random", runner_projection(flow_view), runner_features(0, 3), random_oracle)
 PROPERTIES["C09"] = {
-    "families": [("random", 160, 4000)],
+    "families": [("random", 240, 4000)],
     "rule": "programs using dice, random and random_range in lines, conditions, assignments and jump targets; seeds over "
             "[0-9a-z]{1,14} (including seeds whose base-36 value wraps int64). The model is fed the first 64 raw values of "
             "an independent rand.NewSource(seed integer derived by the harness's own reading of the rule), so every "
@@ -1038,17 +1038,98 @@ FAMILIES["textline"] = {"oracle": textline_oracle, "features": textline_features
                         "shrink": lambda c: [[c[0], sexp.Sym(str(c[1])[:i] + str(c[1])[i + 1:])] for i in range(len(str(c[1])))][:80]}
 
 
+# ------------------------------------------------------------------ escapes (C04, literal text end to end)
+def esc_tokens(case):
+    return [str(t) for t in case[2]]
+
+
+def esc_oracle(case, obs, exp):
+    want_text, want_tags = str(case[3]), [str(t) for t in case[4]]
+    if tag(obs) != "text":
+        return "violation", "a literal %s whose text is %r (tokens %r) was not returned as a line: %s" % (
+            "option" if case[1] == 1 else "line", want_text, esc_tokens(case), sexp.dump(obs)[:200])
+    got_text, got_tags = str(obs[1]), [str(t) for t in obs[2]]
+    if got_text != want_text:
+        return "violation", "literal text with escapes resolved is %r, the runner returned %r (tokens %r)" % (
+            want_text, got_text, esc_tokens(case))
+    if got_tags != want_tags:
+        return "violation", "tags %r expected, %r returned" % (want_tags, got_tags)
+    return "ok", ""
+
+
+def esc_known_class(k, case, exp_line, obs_line):
+    toks = [t for t in esc_tokens(case) if t.strip(" ") != ""]
+    obs = sexp.parse(obs_line)
+    if k.get("id") == "D21":
+        return bool(toks) and toks[0] in ("\\[", "\\]") and tag(obs) == "none"
+    if k.get("id") == "D27":
+        # exactly the text in which every escaped backslash that precedes an unescaped ']' is lost
+        if tag(obs) != "text":
+            return False
+        out = []
+        ts = esc_tokens(case)
+        hit = False
+        for i, t in enumerate(ts):
+            if t.startswith(" #") or t.startswith("#") or t.startswith("  #") or "//" in t and not t.startswith("\\"):
+                break
+            if t == "\\\\" and i + 1 < len(ts) and ts[i + 1] == "]":
+                hit = True
+                continue
+            out.append(t[1:] if len(t) == 2 and t[0] == "\\" else t)
+        return hit and "".join(out).strip() == str(obs[1]) and [str(x) for x in obs[2]] == [str(x) for x in case[4]]
+    return False
+
+
+def esc_features(case):
+    ts = esc_tokens(case)
+    labels = ["option" if case[1] == 1 else "line",
+              "escaped" if any(len(t) == 2 and t[0] == "\\" for t in ts) else "no-escape",
+              "tags" if len(case[4]) else "no-tags",
+              "multibyte" if any(ord(c) > 127 for t in ts for c in t) else "ascii",
+              "escaped-backslash" if "\\\\" in ts else "no-escaped-backslash",
+              "escaped-bracket" if ("\\[" in ts or "\\]" in ts) else "no-escaped-bracket"]
+    return (case[1], tuple(ts)), len(ts) >= 3, labels
+
+
+def esc_shrink(case):
+    ts = list(case[2])
+    out = []
+    for i in range(len(ts)):
+        rest = ts[:i] + ts[i + 1:]
+        t = str(ts[i])
+        if t.lstrip(" ").startswith("#") or "//" in t:
+            if t.lstrip(" ").startswith("#"):
+                continue
+            out.append([case[0], case[1], rest, case[3], case[4]])
+            continue
+        m = t[1:] if len(t) == 2 and t[0] == "\\" else t
+        # meaning without this token: recompute from the remaining tokens
+        mean = "".join((str(x)[1:] if len(str(x)) == 2 and str(x)[0] == "\\" else str(x)) for x in rest
+                       if not (str(x).lstrip(" ").startswith("#") or "//" in str(x)))
+        if mean.strip():
+            out.append([case[0], case[1], rest, sexp.Sym(mean.strip()), case[4]])
+    return out
+
+
+FAMILIES["escapes"] = {"oracle": esc_oracle, "features": esc_features, "shrink": esc_shrink,
+                       "known_class": esc_known_class, "always_oracle": True}
+
+
 def render_view(o):
     return obs_view(o, keep_tags=True, keep_attrs=False, keep_disabled=True)
 
 
 _mk("render", runner_projection(render_view), runner_features(0, 3, need=["line"]))
 PROPERTIES["C04"] = {
-    "families": [("textline", 4000, 150000), ("render", 150, 4000), ("fmt", 150, 20000)],
+    "families": [("textline", 4000, 150000), ("escapes", 3000, 100000), ("render", 250, 4000), ("fmt", 150, 20000)],
     "rule": "textline: one source line (printable ASCII, punctuation, multi-byte and astral characters; every escapable "
             "character escaped or not at every position, unescapable escapes, leading blanks, 0-2 hashtags with odd "
             "spacing, trailing comments) in a node body; the implementation's parser must read it as the transcribed "
-            "grammar does (literal text + tags, or not a plain line). render: programs dominated by lines and option "
+            "grammar does (literal text + tags, or not a plain line). escapes: one line or option written as tokens whose "
+            "meaning is known by construction (ordinary characters, every escapable character with its backslash, '>' and "
+            "'}' either way, single '<' and '/', ']' outside markers, escaped backslashes before brackets, hashtags, "
+            "comments); the runner must return exactly the resolved, trimmed text and the tags; the model (TextMode "
+            "transcription + markup phase) must predict the same. render: programs dominated by lines and option "
             "groups with inline expressions of every type and conditions; text, tags and Disabled compared. fmt: display "
             "form of doubles. Non-trivial: source line of >= 4 characters / a line statement present.",
     "assumptions": [],
